@@ -50,6 +50,12 @@ inductive PAction where
   at `DB::open` unless the old manifest is re-used): snapshot of the current version, then CURRENT
   is switched, then the old manifest is removed -/
   | switchManifest (newManifest : Nat)
+  /-- `DB::open` on the image the instance leaves behind (after a clean close or a crash), without
+  re-using the last WAL or the manifest: the WALs the manifest names are replayed into level-0
+  tables (`t1` for the older one, `t2` for the newer), the next WAL is created, a new manifest gets a
+  snapshot of the recovered version and the edit {wal number := the new WAL, added := the new
+  tables}, CURRENT is switched, the replayed WALs and the old manifest are removed -/
+  | reopen (t1 t2 newWal newManifest : Nat)
 
 /-- the LSM action of a persisted action (`none`: the LSM state is not touched) -/
 def PAction.toAction? : PAction → Option Action
@@ -59,6 +65,20 @@ def PAction.toAction? : PAction → Option Action
   | .compact c => some (.compact c)
   | .trivialMove n l => some (.trivialMove n l)
   | .switchManifest _ => none
+  | .reopen _ _ _ _ => none
+
+/-- the tables recovery writes: the entries of the older and of the newer replayed WAL -/
+def tableOf (t : Nat) : List Entry → List (Nat × List Entry)
+  | [] => []
+  | e :: es => [(t, e :: es)]
+
+def newTables (s : State) (t1 t2 : Nat) : List (Nat × List Entry) :=
+  tableOf t1 (s.imm.getD []) ++ tableOf t2 s.mem
+
+/-- the effect of recovery on the LSM state, as actions of the LSM model: both memtables end up in
+level-0 tables -/
+def reopenActions (s : State) (t1 t2 : Nat) : List Action :=
+  (match s.imm with | some _ => [Action.flush t1 0] | none => []) ++ [Action.rotate, Action.flush t2 0]
 
 /-- `(level, file number)` of every file of the version, level by level (`write_snapshot`) -/
 def levelPairsFrom : Nat → List (List File) → List (Nat × Nat)
@@ -95,18 +115,31 @@ def opsOf (p : PState) : PAction → List Op
      .appendManifest m' { walNumber := some p.c.w0, added := levelPairs p.s.levels, deleted := [] },
      .setCurrent m',
      .removeManifest p.c.manifest]
+  | .reopen t1 t2 w' m' =>
+    ((newTables p.s t1 t2).map fun o => Op.completeTable o.1 o.2) ++
+    [.createWal w', .createManifest m',
+     .appendManifest m' { walNumber := none, added := levelPairs p.s.levels, deleted := [] },
+     .appendManifest m' { walNumber := some w', added := (newTables p.s t1 t2).map fun o => (0, o.1),
+                          deleted := [] },
+     .setCurrent m'] ++
+    (match p.c.immWal with | some w => [.removeWal w] | none => []) ++
+    [.removeWal p.c.wal, .removeManifest p.c.manifest]
 
 def ctxAfter (c : Ctx) : PAction → Ctx
   | .rotate w => { c with wal := w, immWal := some c.wal }
   | .flush _ _ => { c with immWal := none }
   | .switchManifest m' => { c with manifest := m' }
+  | .reopen _ _ w' m' => { manifest := m', wal := w', immWal := none }
   | _ => c
 
 /-- the LSM part of a step -/
 def lsmStep (s : State) (a : PAction) : Option State :=
-  match a.toAction? with
-  | some x => step s x
-  | none => some s
+  match a with
+  | .reopen t1 t2 _ _ => run s (reopenActions s t1 t2)
+  | _ =>
+    match a.toAction? with
+    | some x => step s x
+    | none => some s
 
 /-- one step: the LSM transition must be enabled; a rotation needs a WAL number above every WAL
 on disk, a new manifest a number above every manifest on disk (file numbers are allocated from one
@@ -115,6 +148,8 @@ def pstep (p : PState) (a : PAction) : Option PState :=
   let extra : Bool := match a with
     | .rotate w => (p.d.wals.all fun x => decide (x.1 < w))
     | .switchManifest m' => (p.d.manifests.all fun x => decide (x.1 < m'))
+    | .reopen _ _ w' m' =>
+      (p.d.wals.all fun x => decide (x.1 < w')) && (p.d.manifests.all fun x => decide (x.1 < m'))
     | _ => true
   if extra then
     match lsmStep p.s a with
